@@ -207,6 +207,25 @@ PROPS['C08'] = dict(
 )
 
 
+# ---------------------------------------------------------------- C11 (h_nnls)
+PROPS['C11'] = dict(
+    level_text='Exploration against two oracles: for n <= 12 the unique constrained minimiser is found by enumerating all 2^n active sets in long double '
+               '(plus lambda_min by Jacobi), and for every n the Karush-Kuhn-Tucker residual is evaluated in long double. All four exported solvers '
+               '(Lawson-Hanson in both input forms) run on random, banded, degenerate (ties built backwards from a chosen solution) and badly scaled systems, '
+               'in the production build and under ASan/UBSan; a solver that hangs, calls exit() or returns NULL is a violation.',
+    level_note=NOTE_COMMON + '; the absolute tolerances of the solvers (KKT_TOL 1e-6, n*eps*1e5, the tolerance argument) are taken as stated',
+    technique='runtime monitor: brute-force active-set oracle + KKT residual oracle, under ASan/UBSan',
+    targets=[T('h_nnls.cpp', 'prod'), T('h_nnls.cpp', 'asan')],
+    passes=lambda tier, sc: [Pass('prod', 'h_nnls.prod', 'C11', n(tier, 640, 20000, sc), stall_s=180),
+                             Pass('asan', 'h_nnls.asan', 'C11', n(tier, 160, 2000, sc), stall_s=300)],
+    level='exploration',
+    rule='case = one symmetric positive-definite system (3 of 4 with n in 2..12 and an enumerated optimum, 1 of 4 sparse with n in 20..300) solved by each solver; '
+         'distinct_nontrivial counts distinct (system, solver) pairs',
+    assumptions=ASSUME_COMMON + ['tolerance on the gradient: stated dual tolerance + 64 n eps (|A||x|+|b|); distance bound 4 sqrt(n)(tau+|A| t)/lambda_min'],
+    require={'any': {'oracle-solutions': 200, 'problems-degenerate': 50, 'problems-large(KKT-only)': 50, 'solves:nnls_normal_block3': 300, 'solves:nnls_lawson_hanson(ls)': 50}},
+)
+
+
 def all_targets():
     seen, out = set(), []
     for p in PROPS.values():
